@@ -1,0 +1,103 @@
+//! State snapshot of a running node, only compiled with `--cfg mainline_verif`.
+#![allow(missing_docs)]
+
+use std::fmt::{self, Debug, Formatter};
+use std::net::SocketAddrV4;
+use std::time::Duration;
+
+use crate::core::server::StoreSizes;
+use crate::{Dht, Id, RoutingTable};
+
+use super::{Actor, ActorMessage};
+
+/// A closure run by the actor thread between two ticks.
+pub(crate) struct VerifFn(pub Box<dyn FnOnce(&mut Actor) + Send>);
+
+impl Debug for VerifFn {
+    fn fmt(&self, f: &mut Formatter<'_>) -> fmt::Result {
+        write!(f, "VerifFn")
+    }
+}
+
+#[derive(Debug, Clone)]
+pub struct TableSnapshot {
+    pub id: Id,
+    /// (id, address, time since last seen) in iteration order (bucket by bucket).
+    pub nodes: Vec<(Id, SocketAddrV4, Duration)>,
+    /// (bucket distance, ids in bucket order)
+    pub buckets: Vec<(u8, Vec<Id>)>,
+    /// dht_size_estimates_count, dht_size_estimates_sum, responders_samples_count,
+    /// responders_size_estimates_sum, responders_subnets_sum
+    pub stats: (usize, f64, usize, f64, usize),
+}
+
+impl TableSnapshot {
+    fn new(table: &RoutingTable) -> Self {
+        Self {
+            id: *table.id(),
+            nodes: table
+                .nodes()
+                .map(|n| (*n.id(), n.address(), n.0.last_seen.elapsed()))
+                .collect(),
+            buckets: table
+                .buckets()
+                .iter()
+                .map(|(d, b)| (*d, b.iter().map(|n| *n.id()).collect()))
+                .collect(),
+            stats: table.verif_stats(),
+        }
+    }
+}
+
+#[derive(Debug, Clone)]
+pub struct Snapshot {
+    pub iterative_queries: Vec<Id>,
+    pub put_queries: Vec<Id>,
+    /// (targets, total waiting callers)
+    pub put_senders: (usize, usize),
+    pub get_senders: (usize, usize),
+    /// (entries in the in-flight vector, entries that have not expired)
+    pub inflight: (usize, usize),
+    pub cache_len: usize,
+    /// Per cached lookup: (target, is find_node, is get_signed_peers, dht_size_estimate,
+    /// responders_dht_size_estimate, subnets), least recently used last.
+    pub cache: Vec<(Id, bool, bool, f64, f64, u8)>,
+    pub table: TableSnapshot,
+    pub signed_table: TableSnapshot,
+    pub stores: StoreSizes,
+    pub server_mode: bool,
+    pub firewalled: bool,
+    pub public_address: Option<SocketAddrV4>,
+}
+
+/// Ask the actor thread for a [Snapshot]; the answer arrives after its next loop iteration.
+pub fn snapshot(dht: &Dht) -> flume::Receiver<Snapshot> {
+    let (tx, rx) = flume::bounded(1);
+
+    dht.send(ActorMessage::Verif(VerifFn(Box::new(move |actor| {
+        let core = &actor.core;
+        let _ = tx.send(Snapshot {
+            iterative_queries: core.iterative_queries.keys().copied().collect(),
+            put_queries: core.put_queries.keys().copied().collect(),
+            put_senders: (
+                actor.put_senders.len(),
+                actor.put_senders.values().map(|v| v.len()).sum(),
+            ),
+            get_senders: (
+                actor.get_senders.len(),
+                actor.get_senders.values().map(|v| v.len()).sum(),
+            ),
+            inflight: actor.socket.verif_inflight(),
+            cache_len: core.cached_iterative_queries.len(),
+            cache: core.verif_cache(),
+            table: TableSnapshot::new(&core.routing_table),
+            signed_table: TableSnapshot::new(&core.signed_peers_routing_table),
+            stores: core.server.verif_sizes(),
+            server_mode: core.server_mode,
+            firewalled: core.firewalled,
+            public_address: core.public_address,
+        });
+    }))));
+
+    rx
+}
